@@ -189,6 +189,19 @@ func planC08sweep(c *Ctx, run int64) *Plan {
 				add("addmember", n.Ptr, Op{S2: cands[j], S3: cat[g][cands[j]]})
 				cands = append(cands[:j], cands[j+1:]...)
 			}
+			// maps from keys to text (extensions, meta): one more entry, with a value and without
+			if last := n.Ptr[strings.LastIndex(n.Ptr, "/")+1:]; (last == "ext" || last == "meta") && len(n.V.M) > 0 {
+				allStr := true
+				for _, m := range n.V.M {
+					if m.V == nil || m.V.K != 's' {
+						allStr = false
+					}
+				}
+				if allStr && n.V.Get("zz-added") == nil {
+					add("addmember", n.Ptr, Op{S2: "zz-added", S3: `""`})
+					add("addmember", n.Ptr, Op{S2: "zz-added", S3: `"x"`})
+				}
+			}
 			// and members of the published schema that no corpus document carries at this place
 			if strings.HasPrefix(n.Ptr, "/doc") && v.Get("doc") != nil {
 				sm := schemaMembers(v.Get("doc"), strings.TrimPrefix(n.Ptr, "/doc"))
